@@ -10,7 +10,7 @@ import numpy as np
 from harness import common
 from harness.common import zlit
 
-HDR = """From Coq Require Import ZArith QArith List Bool String.
+HDR = """From Coq Require Import ZArith QArith List Bool String Ascii.
 From PV Require Import Base.QAux Obs.Model Py.Prim.
 Import ListNotations.
 Open Scope Z_scope.
@@ -51,6 +51,18 @@ def cases(rng, n):
     for _ in range(n):
         L = [rng.randint(-9, 9) for _ in range(rng.randint(0, 7))]
         i, a, b = rng.randint(-9, 9), rng.randint(-9, 9), rng.randint(-9, 9)
+        if rng.random() < 0.08:
+            # strings: name.split('|')[0], sorted(list of names), sorted(set(..))
+            alpha = "abAB12_|"
+            names = ["".join(rng.choice(alpha) for _ in range(rng.randint(0, 5))) for _ in range(rng.randint(0, 5))]
+            cs = lambda x: common.coq_string(x) + "%string"
+            sl = lambda xs: "[" + "; ".join(cs(x) for x in xs) + "]"
+            enc = lambda xs: [ord(c) for x in xs for c in x + "/"]
+            flat = "(List.concat (map (fun s_ => map (fun c_ => Z.of_nat (Ascii.nat_of_ascii c_)) (list_ascii_of_string s_) ++ [47]) %s))"
+            add(flat % ("(map ens_of %s)" % sl(names)), enc([x.split("|")[0] for x in names]), "split('|')[0] on %r" % names)
+            add(flat % ("(py_sorted_strings %s)" % sl(names)), enc(sorted(names)), "sorted(%r)" % names)
+            add(flat % ("(ssort_set %s)" % sl(names)), enc(sorted(set(names))), "sorted(set(%r))" % names)
+            continue
         k = rng.choice(["index", "slice", "slice_rev", "floordiv", "mod", "range", "sortset", "roll", "bincount", "lindex", "cumsum",
                         "arrzip", "minmax", "inter1d", "slice_set", "slice_add", "store", "perms", "vecmat"])
         if k == "index":
